@@ -1,7 +1,8 @@
 """C17: an I/O error in the middle of an operation leaves the store intact.  Engine E3 (crashx), single faults.
 
 Enumerated: for every scenario, every faultable call (open, write, flush, truncate, fsync, rename/replace/link/unlink/
-remove/mkdir, SQL commit) x fault kind (EIO with no effect; for writes additionally "half written, then ENOSPC";
+remove/mkdir, close of a written file, SQL commit) x fault kind (EIO with no effect; for writes additionally "half written,
+then ENOSPC"; for opens additionally PermissionError/EACCES;
 OperationalError for commits): the scenario is re-executed from scratch with exactly that call failing.
 Oracle: the call returns normally (then the return value is right and the final state is the model's) or raises; in
 both cases the raw state and a fresh handle satisfy the C05 oracle (nothing stored before is lost, no partial object
@@ -147,6 +148,8 @@ def run(tier, report):
             tasks.append((sc, i, 'eio', lab))
             if lab.startswith('f.write'):
                 tasks.append((sc, i, 'partial', lab))
+            if lab.startswith('open.'):
+                tasks.append((sc, i, 'eacces', lab))      # an OSError of another kind: PermissionError (EACCES)
     results = pmap(_one, tasks, progress='C17 faults' if len(tasks) > 500 else None)
     distinct = set()
     outcomes = {}
